@@ -142,7 +142,8 @@ Scripts == IF Family = "metrics" THEN MetricScripts ELSE IF Family = "retrytime"
   \cup { HandshakeLeg(f, leg, r) : f \in AllFaults \cup {"trunc"}, leg \in 1..3, r \in (IF Full THEN rs ELSE {<<250, 1000>>, <<900, 300>>}) }
   \cup { Sdr(f, r) : f \in {"blackhole", "late", "garbage", "temp", "permanent"}, r \in (IF Full THEN rs ELSE {<<250, 1000>>, <<900, 300>>}) }
   \cup ExpiredScripts \cup SdrShort \cup Histories
-  \cup { HandshakeLeg("status01", 1, r) : r \in {<<250, 1000>>, <<400, 400>>, <<900, 300>>} }
+  \* (a deadline well below the smallest pause of the library's back-off, 250 ms, makes an uninterruptible wait show every time)
+  \cup { HandshakeLeg("status01", 1, r) : r \in {<<60, 300>>, <<250, 1000>>, <<400, 400>>, <<900, 300>>} }
   \cup { SdrModifiedForever(r) : r \in {<<100, 300>>, <<400, 400>>, <<900, 300>>} }
 Header == [header |-> TRUE, family |-> "timing", defs |-> SessionDefs(S) @@ [ReqPlainT |-> ReqPlain(S)], stable |-> <<"SIK", "K1", "K2">>]
 ASSUME PrintT(<<"HEADER", ToJson(Header)>>)
